@@ -286,6 +286,9 @@ impl TypeEntry {
             // conversion routines since we have those close at hand.
             TypeEntryDetails::Integer(itype) => match (default.as_u64(), default.as_i64()) {
                 (None, None) => Err(Error::invalid_value()),
+                // The value must be representable by the integer type or
+                // the generated default function would panic.
+                (u, i) if !integer_in_range(itype, u, i) => Err(Error::invalid_value()),
                 (Some(0), _) => Ok(DefaultKind::Intrinsic),
                 (_, Some(0)) => unreachable!(),
                 (Some(_), _) => {
@@ -373,6 +376,30 @@ impl TypeEntry {
             (format!("defaults::{}", fn_name), Some(def))
         }
     }
+}
+
+fn integer_in_range(itype: &str, u: Option<u64>, i: Option<i64>) -> bool {
+    let value = match (u, i) {
+        (Some(u), _) => u as i128,
+        (None, Some(i)) => i as i128,
+        (None, None) => return false,
+    };
+    let (min, max) = match itype.rsplit("::").next().unwrap() {
+        "i8" => (i8::MIN as i128, i8::MAX as i128),
+        "u8" => (0, u8::MAX as i128),
+        "NonZeroU8" => (1, u8::MAX as i128),
+        "i16" => (i16::MIN as i128, i16::MAX as i128),
+        "u16" => (0, u16::MAX as i128),
+        "NonZeroU16" => (1, u16::MAX as i128),
+        "i32" => (i32::MIN as i128, i32::MAX as i128),
+        "u32" => (0, u32::MAX as i128),
+        "NonZeroU32" => (1, u32::MAX as i128),
+        "i64" => (i64::MIN as i128, i64::MAX as i128),
+        "u64" => (0, u64::MAX as i128),
+        "NonZeroU64" => (1, u64::MAX as i128),
+        _ => return true,
+    };
+    min <= value && value <= max
 }
 
 pub(crate) fn validate_default_for_external_enum(
